@@ -63,7 +63,7 @@ fn test_walk(case: &WalkCase, st: &mut Stats, counting: bool) -> CaseResult {
         let mut pool = case.pool.clone();
         if case.cfg.contains_overlay() {
             for n in pool.iter_mut() {
-                n.truncate(200);
+                crate::gen::cut_name(n, 200);
             }
         }
         let nl = case.cfg.overlay_layers().max(1);
@@ -157,7 +157,7 @@ fn test_xfer(case: &XferCase, st: &mut Stats, counting: bool) -> CaseResult {
         let mut pool = case.pool.clone();
         if case.cfg_a.contains_overlay() || case.cfg_b.contains_overlay() {
             for n in pool.iter_mut() {
-                n.truncate(200);
+                crate::gen::cut_name(n, 200);
             }
         }
         let uni = crate::observe::universe(&pool, 3);
